@@ -27,7 +27,10 @@ CLAIMED = {
 # later entries are merged from tools/manifest_extra.json if present
 extra = os.path.join(VERIF, "tools", "manifest_extra.json")
 if os.path.exists(extra):
-    CLAIMED.update(json.load(open(extra)))
+    for k, v in json.load(open(extra)).items():
+        if v.get('note') == 'NOTE_M1':
+            v['note'] = NOTE_M1
+        CLAIMED[k] = v
 
 checks = []
 for pid in ids:
